@@ -70,6 +70,13 @@ class SymBackend:
         from .core import ONE, Poly, SC, ZERO, pvar
 
         arr = np.empty((d, d), dtype=object)
+        assume_physical = param == "hermphys"
+        if assume_physical:
+            # contents quantified over an open neighbourhood of the maximally mixed state (every matrix in it is a
+            # valid state): a polynomial identity that holds on an open set holds everywhere, but support-dependent
+            # branches (zero populations) are not explored with this parametrisation
+            param = "herm"
+        n_phys = len(core.CTX.physical)
         if param == "herm":
             tr = ZERO
             for i in range(d):
@@ -112,6 +119,8 @@ class SymBackend:
                         env[next(iter(arr[i, j].im.vars()))] = float(R[i, j].imag)
 
             core.CTX.samplers.append(sampler)
+            if assume_physical:
+                core.CTX.assume.extend(core.CTX.physical[n_phys:])
         elif param == "rank2":
             vars_ = []
             psi = [[], []]
